@@ -27,34 +27,56 @@ from .common import find_node, find_stmt, indent_of, rule
 
 PROP = "C15"
 READY = False
-TECHNIQUE = "whole-package effect analysis: every store/mutator/API call is classified by the provenance of the object it writes (locals, parameters through call sites, receiver types), shared roots are judged"
+TECHNIQUE = "whole-package effect analysis: every store/mutator/API call is classified by the provenance of the object it writes (locals, parameters through call sites, helper returns, receiver types); shared roots are judged; path rules on the CFG for installs, restores and refreshes"
 
 META = {
     "explanation": (
-        "Every store (assignment, augmented assignment, delete to an attribute or subscript, setattr), every call of a container "
-        "mutator and every method call on the Sphinx environment is enumerated in all functions of the package and classified by "
-        "the provenance of the written object: local bindings are followed to their defining expressions, parameters to the "
-        "arguments of all their call sites (through the frozen callback edges), receivers are typed with the engine's light typing. "
-        "A write whose object is rooted in a module global, an imported module/class, a class object (also one handed out by the "
-        "docutils registries), a class-level mutable attribute, the (possibly shared) MdParserConfig or the Sphinx app/env must be "
-        "one of: constant install executed on every parse around the render call; restore of a value saved from the same place; "
-        "mutation inside a try whose finally restores a saved copy; env data keyed by env.docname; tabled current-document env "
-        "API; write to a fresh copy / object under construction; function outside the reach of every parse entry; in addition the "
-        "docutils front end must remove roles._roles[''] after the render as its sibling docutils.parsers.rst.Parser.parse does (R1). Save/"
-        "restore pairs are checked for order, copy-before-in-place-mutation and inverse operations (R2); lru_cache functions are "
-        "pure functions of immutable parameters (R3); both parse methods build a new MarkdownIt+renderer per call and keep it in "
-        "a local only (R4); every renderer attribute written during a render is re-initialised unconditionally by setup_render "
-        "(R5); document-scoped state is listed (R6); no uuid/random/time/id() value reaches a node, id or message (R7); a config "
-        "field that is mutated in place is re-created for every MdParserConfig instance by an unconditional normalising validator, "
-        "because copy() is shallow (R8); env.myst_config is assigned on every normal path of a handler connected to builder-inited, "
-        "because the environment is pickled between builds (R9). document.settings counts as shared (one publisher settings object "
-        "per Sphinx build): attributes on it must be overwritten on every render from the document's own config."
+        "Whole-package effect analysis. Every store (assignment, augmented assignment, delete to an attribute or subscript, "
+        "setattr), every call of a container mutator (incl. next() on an iterator/counter) and every method call on the Sphinx "
+        "env/app is enumerated in all functions and classified by the provenance of the written object: local bindings are "
+        "followed to their defining expressions (aliases normalised), parameters to the arguments of all their call sites, "
+        "returns of package helpers and stores to self.<attr> are followed, receivers are typed with the engine's light typing. "
+        "Reachability from the parse entries (both parse methods, the four transforms, figure-md, sub-ref, the reference "
+        "resolver) uses the engine's call graph plus its dynamic-dispatch edges recognised wherever they sit in the module "
+        "(helper extraction keeps them). R1: a write whose object is rooted in a module global, an imported module/class, a "
+        "class object (also one handed out by the docutils registries), a class-level mutable/stateful attribute, the possibly "
+        "shared MdParserConfig, the document.settings object (one per Sphinx build) or the Sphinx app/env must be one of: "
+        "constant install or constant-key reset executed on every parse around the render call; restore of a value (or of the "
+        "absence of a key) saved from the same place; mutation inside a try whose finally restores a saved copy; data under an "
+        "env attribute that Sphinx merges per docname (metadata & co.) keyed by env.docname; env.temp_data; tabled current-"
+        "document env API; settings attribute overwritten from the document's own config on every render; write to a fresh "
+        "copy / object under construction; function outside the reach of every parse entry. The docutils front end must remove "
+        "roles._roles[''] after the render as its sibling docutils.parsers.rst.Parser.parse does. R2: save/restore pairs in "
+        "finally blocks - the saved name is read from the restored place before the try (or under the same conditions as the "
+        "restore), is a copy when the place is mutated in place, shared state is not changed before the try is entered, undo "
+        "operations match their forward operation. R3: lru_cache functions are pure functions of immutable scalars. R4: the "
+        "parser each parse method renders with originates from a MarkdownIt(...) constructed during that call (followed through "
+        "helpers, parameters, returns); no parser/renderer instance at module or class level. R5: every renderer attribute "
+        "written during a render is stored unconditionally by setup_render, which render() calls first. R6: document-scoped "
+        "state is listed. R7: no uuid/random/secrets/time/os.urandom/id() value reaches a node, id or message. R8: a config "
+        "field mutated in place is re-created for every MdParserConfig instance by an unconditional normalising validator "
+        "(copy() is shallow). R9: env.myst_config is assigned on every normal path of a handler connected to builder-inited (the "
+        "environment is pickled between builds). R10: a subscript slot that is extended in place somewhere (node['classes'], "
+        "node['names'] ...) is never assigned a mutable object owned by the config, a module global or a class."
     ),
-    "not_decided": "equality of outputs under all histories/schedules as values; state kept inside third-party directives/roles, docutils and Sphinx domains (one foreign write is covered: the default role set by docutils' default-role directive), and Jinja templates handed `env`",
-    "trusted_base": ["CPython ast", "engine call graph incl. frozen special edges", "tables ENV_API / ENV_PURE / REGISTRY_CALLS / FRESH_CALLS in this module"],
+    "not_decided": (
+        "equality of outputs under all histories/schedules as values; state kept inside third-party directives/roles, docutils "
+        "and Sphinx domains (one foreign write is covered: the default role set by docutils' default-role directive), Jinja "
+        "templates handed `env`; aliasing of shared objects through anything but constant-key subscript slots (R10 is field-"
+        "based, not a full heap analysis); immutability of config values is taken from field annotations only"
+    ),
+    "trusted_base": [
+        "CPython ast",
+        "engine call graph incl. frozen special edges (their patterns are re-applied module-wide by this module)",
+        "tables in this module: ENV_API / ENV_PURE / ENV_ARG_API / ENV_MERGED / SETTINGS_API / REGISTRY_CALLS / FRESH_CALLS / STATEFUL_CTORS / RESET_EXCEPTIONS",
+        "sibling sources docutils/parsers/rst/__init__.py and directives/misc.py (default-role oracle)",
+    ],
     "assumptions": [
-        "docutils creates one document/reporter per parse (the settings object is shared under Sphinx and judged as such); Sphinx clears env.temp_data per document, replaces settings.record_dependencies per document and merges env.metadata & co. / domain data per docname from parallel workers",
-        "markdown-it creates a fresh env dict per MarkdownIt.render call",
+        "docutils creates one document/reporter per parse; under Sphinx the settings object is the publisher's and shared by all documents (judged as shared), settings.record_dependencies is replaced per document",
+        "Sphinx clears env.temp_data per document and merges env.metadata & co. / domain data per docname from parallel read workers; ad-hoc env attributes are not merged",
+        "the build environment (incl. env.myst_config) is pickled and re-loaded by the next build",
+        "markdown-it creates a fresh env dict per MarkdownIt.render call; docutils Element constructors copy list-valued keyword arguments",
+        "MdParserConfig.copy() is dataclasses.replace (shallow) and re-runs the field validators through __post_init__ (both re-verified on every run)",
     ],
 }
 
@@ -81,8 +103,10 @@ CONFIG_CLS = "myst_parser.config.main:MdParserConfig"
 MUTATORS = {
     "add", "update", "append", "extend", "insert", "pop", "remove", "discard", "clear", "setdefault", "sort", "popitem",
     "difference_update", "intersection_update", "symmetric_difference_update", "__setitem__", "__delitem__", "appendleft",
-    "popleft", "reverse",
+    "popleft", "reverse", "send", "__next__", "rotate", "subtract",
 }
+# constructors of objects with mutable state (containers, iterators, counters)
+STATEFUL_CTORS = {"dict", "list", "set", "defaultdict", "OrderedDict", "deque", "Counter", "count", "cycle", "iter", "bytearray", "WeakValueDictionary", "WeakKeyDictionary", "ChainMap"}
 ELEMENT_READS = {"get", "setdefault", "pop", "values", "items", "keys", "__getitem__"}
 # calls whose result is a new object that nothing else refers to
 FRESH_CALLS = {
@@ -646,7 +670,9 @@ class Effects:
                 elif isinstance(st, ast.AnnAssign):
                     tgt, val = st.target, st.value
                 if isinstance(tgt, ast.Name) and tgt.id == attr and val is not None:
-                    if isinstance(val, (ast.Dict, ast.List, ast.Set, ast.ListComp, ast.DictComp, ast.SetComp)) or (isinstance(val, ast.Call) and dotted(val.func) in ("dict", "list", "set", "defaultdict", "OrderedDict", "deque")):
+                    if isinstance(val, (ast.Dict, ast.List, ast.Set, ast.ListComp, ast.DictComp, ast.SetComp, ast.GeneratorExp)) or (
+                        isinstance(val, ast.Call) and (dotted(val.func) or "").rsplit(".", 1)[-1] in STATEFUL_CTORS
+                    ):
                         defined = f"class-level mutable {c.fq}.{attr}"
         if defined is None:
             return None
@@ -740,6 +766,9 @@ class Effects:
                         out.append(Site(fi, n, t, t.id, "global", val))
                 if isinstance(n, ast.Call):
                     d = dotted(n.func)
+                    if d == "next" and n.args:
+                        # advancing an iterator/counter is a write to it
+                        out.append(Site(fi, n, n.args[0], _ntext(n.args[0], fi), "mutator:next"))
                     if d in ("setattr", "delattr") and n.args:
                         attr = n.args[1].value if len(n.args) > 1 and isinstance(n.args[1], ast.Constant) else "*"
                         out.append(Site(fi, n, n.args[0], f"{_ntext(ast.Attribute(value=n.args[0], attr='x', ctx=ast.Load()), fi)[:-2]}.{attr}", "setattr", n.args[2] if len(n.args) > 2 else None))
@@ -898,17 +927,60 @@ def _saved_from(value: ast.expr, place: str, fi: FunctionInfo) -> str | None:
     nt = lambda x: _ntext(x, fi)  # noqa: E731
     if nt(value) == place:
         return "alias"
+    if isinstance(value, ast.Subscript) and isinstance(value.slice, ast.Slice) and value.slice.lower is None and value.slice.upper is None and nt(value.value) == place:
+        return "copy"  # X[:]
+    if isinstance(value, (ast.List, ast.Set, ast.Tuple)) and len(value.elts) == 1 and isinstance(value.elts[0], ast.Starred) and nt(value.elts[0].value) == place:
+        return "copy"  # [*X]
+    if isinstance(value, ast.Dict) and value.keys == [None] and nt(value.values[0]) == place:
+        return "copy"  # {**X}
     if isinstance(value, ast.Call):
         d = dotted(value.func) or ""
         if d in _COPY_CALLS and len(value.args) == 1 and nt(value.args[0]) == place:
             return "copy"
         if isinstance(value.func, ast.Attribute) and value.func.attr in ("copy", "deepcopy") and nt(value.func.value) == place:
             return "copy"
+        if d in _COPY_CALLS and len(value.args) == 1 and isinstance(value.args[0], ast.Call) and isinstance(value.args[0].func, ast.Attribute) and value.args[0].func.attr in ("items", "copy", "keys", "values") and nt(value.args[0].func.value) == place:
+            return "copy"  # dict(X.items())
         if d == "getattr" and len(value.args) >= 2 and isinstance(value.args[1], ast.Constant) and f"{nt(ast.Attribute(value=value.args[0], attr='x', ctx=ast.Load()))[:-2]}.{value.args[1].value}" == place:
             return "alias"
         if isinstance(value.func, ast.Attribute) and value.func.attr == "get" and value.args and f"{nt(value.func.value)}[{unparse(value.args[0])}]" == place:
             return "alias"
     return None
+
+
+def _reads_a_place(v: ast.expr) -> bool:
+    """``v`` is a read (possibly copied) of some attribute/subscript place: X.a, X[k], X.get(k), getattr(X, 'a'), copy(X.a) ..."""
+    if isinstance(v, (ast.Attribute, ast.Subscript)):
+        return True
+    if isinstance(v, ast.Call):
+        d = dotted(v.func) or ""
+        if d == "getattr" or (isinstance(v.func, ast.Attribute) and v.func.attr == "get"):
+            return True
+        if (d in _COPY_CALLS or (isinstance(v.func, ast.Attribute) and v.func.attr in ("copy", "deepcopy"))) and (v.args or isinstance(v.func, ast.Attribute)):
+            inner = v.args[0] if v.args else v.func.value
+            return isinstance(inner, (ast.Attribute, ast.Subscript)) or (isinstance(inner, ast.Call) and _reads_a_place(inner))
+    return False
+
+
+def _same_guards(cfg, d: ast.stmt, restore: ast.stmt) -> bool:
+    """The save is conditional, but the restore runs under (at least) the same conditions (`if x is not None:` twice)."""
+    try:
+        gd = {(unparse(t), pol) for t, pol in cfg.guards(cfg.stmt_of(d))}
+        gr = {(unparse(t), pol) for t, pol in cfg.guards(cfg.stmt_of(restore))}
+    except Exception:
+        return False
+    if not gd or not gd <= gr:
+        return False
+    # the tested names must not change in between: only parameters / names assigned once
+    fi = cfg.fi
+    for text, _ in gd:
+        for nm in {n.id for n in ast.walk(ast.parse(text, mode="eval")) if isinstance(n, ast.Name)}:
+            owner = fi
+            while owner is not None and nm not in owner.params:
+                owner = owner.parent_func
+            if owner is None and len(_name_defs(fi, nm)) > 1:
+                return False
+    return True
 
 
 def _name_defs(fi: FunctionInfo, name: str) -> list[ast.stmt]:
@@ -1072,6 +1144,23 @@ def _judge_shared(ef: Effects, s: Site, roots: frozenset) -> tuple[str, str]:
                 return "ok", f"idempotent constant install ({const}) on every parse that renders"
             if every is False and "REGISTRY" not in kinds:
                 return "violation", f"{what}: the install is not executed on every parse that reaches the render call, so the global state depends on which documents were parsed before"
+    # removal of a key under a recorded "it was absent before" test: restores the previous state
+    if s.how in ("del", "mutator:pop"):
+        keyx = None
+        if s.how == "del" and isinstance(s.node, ast.Delete) and len(s.node.targets) == 1 and isinstance(s.node.targets[0], ast.Subscript):
+            keyx, placex = s.node.targets[0].slice, s.node.targets[0].value
+        elif s.how == "mutator:pop" and isinstance(s.node, ast.Call) and s.node.args:
+            keyx, placex = s.node.args[0], s.node.func.value
+        if keyx is not None:
+            cfg_ = get_cfg(fi)
+            st_ = cfg_.stmt_of(s.node)
+            for t_, pol_ in cfg_.guards(st_):
+                if isinstance(t_, ast.Name) and not pol_:
+                    ds_ = _name_defs(fi, t_.id)
+                    if len(ds_) == 1 and isinstance(getattr(ds_[0], "value", None), ast.Compare):
+                        cmp_ = ds_[0].value
+                        if len(cmp_.ops) == 1 and isinstance(cmp_.ops[0], ast.In) and unparse(cmp_.left) == unparse(keyx) and _ntext(cmp_.comparators[0], fi) == _ntext(placex, fi) and ds_[0].lineno < st_.lineno:
+                            return "ok", f"restores the absence of the key recorded in `{t_.id}` before the operation"
     # reset of a constant key to "absent" on every parse (what docutils' own parser does with roles._roles[''])
     if all(k in ("CLASSOBJ", "IMPORTED", "GLOBAL") for k in kinds):
         keyc = None
@@ -1978,6 +2067,75 @@ def r9_env_config_refreshed(corpus: Corpus, rep: Report, tier: str):
             rep.violation("C15.R9", f"env.{attr}|assigned by a builder-inited handler", w0.site, f"env.{attr} is assigned by {w0.fi.qualname}, but no function connected to 'builder-inited' in the setup code does or calls that: nothing refreshes the attribute when a build starts with a re-loaded environment")
     rep.expect_min("C15.R9", 1, "create_myst_config")
 
+
+# ---------------------------------------------------------------------------
+# R10 shared mutable objects are not aliased into slots that are extended in place
+
+
+def _config_field_immutable(corpus: Corpus, field: str) -> bool:
+    ci = corpus.cls(CONFIG_CLS.replace("myst_parser.", "", 1))
+    for st in ci.node.body:
+        if isinstance(st, ast.AnnAssign) and isinstance(st.target, ast.Name) and st.target.id == field:
+            ann = unparse(st.annotation).strip("'\"")
+            parts = {p_.strip() for p_ in ann.split("|")}
+            return parts <= {"bool", "int", "str", "float", "None", "bytes"} or ann.startswith(("tuple[", "Literal["))
+    return False
+
+
+@rule("C15.R10")
+def r10_no_aliasing_into_mutated_slots(corpus: Corpus, rep: Report, tier: str):
+    rep.rule("C15.R10", "a slot whose list/dict is extended in place somewhere in the package (node['classes'], node['names'], ...) is never assigned a mutable object that belongs to the shared config, a module global or a class: it gets its own copy")
+    ef = _effects(corpus)
+    # slots (constant subscript keys) whose content is mutated in place anywhere in parse reach
+    mut_keys: dict[str, Site] = {}
+    for s in ef.sites():
+        if s.fi.fq not in ef.parse_reach:
+            continue
+        c = s.container
+        if (s.how.startswith("mutator:") or s.how in ("store", "aug", "del")) and isinstance(c, ast.Subscript) and isinstance(c.slice, ast.Constant) and isinstance(c.slice.value, str):
+            if s.how in ("store", "del") and not isinstance((s.node.targets[0] if isinstance(s.node, (ast.Assign, ast.Delete)) else None), ast.Subscript):
+                continue
+            mut_keys.setdefault(c.slice.value, s)
+        if s.how == "aug" and isinstance(s.node, ast.AugAssign) and isinstance(s.node.target, ast.Subscript) and isinstance(s.node.target.slice, ast.Constant) and isinstance(s.node.target.slice.value, str):
+            mut_keys.setdefault(s.node.target.slice.value, s)
+    if len(mut_keys) < 2:
+        rep.error("C15.R10", f"only {len(mut_keys)} in-place extended slots found (expected 'classes', 'names', ...)")
+        return
+    for s in ef.sites():
+        if s.how != "store" or s.fi.fq not in ef.parse_reach or not isinstance(s.node, (ast.Assign, ast.AnnAssign)):
+            continue
+        tgts = s.node.targets if isinstance(s.node, ast.Assign) else [s.node.target]
+        tg = [t for t0 in tgts for t, _ in _flatten(t0) if isinstance(t, ast.Subscript) and t.value is s.container]
+        if not tg or not (isinstance(tg[0].slice, ast.Constant) and tg[0].slice.value in mut_keys):
+            continue
+        if len(tgts) != 1 or isinstance(tgts[0], (ast.Tuple, ast.List)) or s.value is None:
+            continue
+        key = tg[0].slice.value
+        k = f"{s.key}|slot {key!r}"
+        v = s.value
+        shared = []
+        for r in ef.classify(v, s.fi):
+            if r.kind in ("CONFIG", "CLASSATTR", "REGISTRY", "SETTINGS"):
+                shared.append(r)
+            elif r.kind == "GLOBAL":
+                d = dotted(v) or ""
+                if d in s.fi.module.const_nodes and not _immutable_const(s.fi.module, d):
+                    shared.append(r)
+        if shared and isinstance(v, ast.Attribute) and ef._is_config_type(v.value, s.fi) == "CONFIG" and _config_field_immutable(corpus, v.attr):
+            shared = []
+        m0 = mut_keys[key]
+        if shared:
+            rep.violation(
+                "C15.R10",
+                k,
+                s.site,
+                f"`{short(s.node, 70)}` puts the shared object itself ({shared[0].kind}: {shared[0].why[:120]}) into the {key!r} slot; such slots are extended in place "
+                f"(e.g. `{short(m0.node, 50)}` in {m0.fi.qualname}), so the shared object grows with every document and later parses see the additions",
+            )
+        else:
+            rep.ok("C15.R10", k, s.site, "the slot receives an object built for this node")
+    rep.expect_min("C15.R10", 3, "assignments to node['names'] / node['classes'] slots")
+
 # ---------------------------------------------------------------------------
 # R6 document-scoped state (evidence only)
 
@@ -2055,19 +2213,28 @@ def r2_pairing(corpus: Corpus, rep: Report, tier: str):
                 bad = None
                 if not defs:
                     bad = f"`{name}` is never assigned in {fi.qualname}"
+                unjudged = None
                 for d, kind in defs:
                     if kind is None:
-                        bad = f"`{name}` (assigned at line {d.lineno}) is not read from `{place}`: the finally block writes back a value that was saved from somewhere else"
-                    elif not cfg.dominates(cfg.stmt_of(d), tr) or d.lineno >= tr.lineno:
+                        dv = getattr(d, "value", None)
+                        if dv is not None and _reads_a_place(dv):
+                            bad = f"`{name}` (`{short(d, 50)}`) is not read from `{place}`: the finally block writes back a value that was saved from somewhere else"
+                        else:
+                            unjudged = f"`{name}` is computed by `{short(d, 40)}`, not saved from a place - not judged"
+                    elif d.lineno >= tr.lineno or not (cfg.dominates(cfg.stmt_of(d), tr) or _same_guards(cfg, d, st)):
                         bad = f"`{name}` is not saved on every path before the try statement (the saved value may already contain the temporary mutation)"
+                if bad is None and unjudged:
+                    rep.listed("C15.R2", k, site, unjudged)
+                    continue
                 if bad is None:
                     inplace = [s for s in body_sites + [b for b in before_sites if any(b.node.lineno > d.lineno for d, _ in defs)] if _covers(place, s.written) and (s.how.startswith("mutator") or s.written != place)]
                     if inplace and any(kind == "alias" for _, kind in defs):
                         s0 = inplace[0]
                         bad = f"`{short(s0.node, 50)}` mutates the object in place while `{name}` is only an alias of it (no copy): the restore writes the mutated object back"
-                    leaked = [b for b in before_sites if _covers(place, b.written) and all(b.node.lineno > d.lineno for d, _ in defs) and tr not in _covering_tries(fi, b.node)]
+                    # a change of *shared* state before the try is entered is not covered by the finally if something in between raises
+                    leaked = [b for b in before_sites if _covers(place, b.written) and all(b.node.lineno > d.lineno for d, _ in defs) and tr not in _covering_tries(fi, b.node) and any(r.kind in SHARED for r in ef.roots(b))]
                     if bad is None and leaked:
-                        bad = f"`{short(leaked[0].node, 50)}` changes `{place}` before the try statement is entered: an exception in between skips the restore"
+                        bad = f"`{short(leaked[0].node, 50)}` changes the shared `{place}` before the try statement is entered: an exception in between skips the restore"
                 if bad:
                     rep.violation("C15.R2", k, site, bad)
                 else:
@@ -2113,7 +2280,7 @@ def r2_pairing(corpus: Corpus, rep: Report, tier: str):
                                 rep.listed("C15.R2", k, fi.module.site(n), f"finally deletes `{txt}`; no store of it is visible in the try body - not judged")
     rep.expect_min("C15.R2", 6, "restore/undo statements in finally blocks (figure-md 1, include mock 7, substitution 1)")
 
-RULES = [r1_effect_classification, r2_pairing, r3_pure_caches, r4_freshness, r5_reset_completeness, r6_document_scoped, r7_nondeterminism, r8_field_ownership, r9_env_config_refreshed]
+RULES = [r1_effect_classification, r2_pairing, r3_pure_caches, r4_freshness, r5_reset_completeness, r6_document_scoped, r7_nondeterminism, r8_field_ownership, r9_env_config_refreshed, r10_no_aliasing_into_mutated_slots]
 
 
 
@@ -2356,4 +2523,29 @@ def mutants(corpus: Corpus):
         )
         new_dp = splice(dp.src, c.func, "get_md_parser").replace("from myst_parser.parsers.mdit import create_md_parser", "from myst_parser.parsers.mdit import create_md_parser, get_md_parser", 1)
         out.append(Mutant("c15-parser-cache-behind-helper", "C15.R4", md.rel, md.src + helper, expect="Parser.parse", more={dp.rel: new_dp}))
+    # --- round-3 seed classes -----------------------------------------------------------------------
+    # R10: a config-owned / module-level list stored by reference into a node slot that is extended in place
+    f = base.func("DocutilsRenderer.render_link_url")
+    st = find_stmt(f, lambda n: isinstance(n, ast.Expr) and isinstance(n.value, ast.Call) and unparse(n.value.func) == "ref_node['classes'].extend" and "conversion" in unparse(n.value.args[0]))
+    if st is not None:
+        add("c15-config-list-aliased-into-node-classes", "C15.R10", f, splice(base.src, st, "ref_node['classes'] = " + _seg(f, st.value.args[0])), "slot 'classes'")
+    else:
+        out.append(("c15-config-list-aliased-into-node-classes", "ref_node['classes'].extend(conversion[...]) not found"))
+    st = find_stmt(f, lambda n: isinstance(n, ast.Assign) and unparse(n.targets[0]) == "ref_node" and isinstance(n.value, ast.Call))
+    if st is not None:
+        add("c15-module-level-list-aliased-into-node-classes", "C15.R10", f, splice(base.src, st, _seg(f, st) + "\n" + indent_of(f, st) + "ref_node['classes'] = _EXTERNAL_LINK_CLASSES") + "\n_EXTERNAL_LINK_CLASSES: list[str] = ['reference', 'external']\n", "_EXTERNAL_LINK_CLASSES")
+        add("c15-config-field-aliased-into-node-names", "C15.R10", f, splice(base.src, st, _seg(f, st) + "\n" + indent_of(f, st) + "ref_node['names'] = self.md_config.disable_syntax"), "slot 'names'")
+    # R1: process-wide counters / iterators advanced during a parse
+    f = sx.func("SphinxRenderer._random_label")
+    c = find_node(f, lambda n: isinstance(n, ast.Call) and unparse(n.func).endswith("new_serialno"))
+    if c is not None:
+        add("c15-class-level-counter-for-labels", "C15.R1", f, splice(sx.src, c, "next(self._amsmath_serial)").replace("    def _random_label(", "    _amsmath_serial = itertools.count()\n\n    def _random_label(", 1).replace("from __future__ import annotations\n", "from __future__ import annotations\n\nimport itertools\n", 1), "_amsmath_serial")
+        add("c15-module-level-counter-for-labels", "C15.R1", f, splice(sx.src, c, "next(_AMSMATH_SERIAL)") + "\nimport itertools\n\n_AMSMATH_SERIAL = itertools.count()\n", "_AMSMATH_SERIAL")
+    else:
+        out.append(("c15-class-level-counter-for-labels", "new_serialno call in _random_label not found"))
+    # R1: default role restored only when one existed before (the unconditional reset is lost)
+    f = corpus.func("parsers.docutils_:Parser.parse")
+    st = find_stmt(f, lambda n: isinstance(n, ast.Expr) and isinstance(n.value, ast.Call) and unparse(n.value.func).endswith("_roles.pop"))
+    if st is not None:
+        add("c15-default-role-reset-only-when-one-existed-before", "C15.R1", f, splice(f.module.src, st, "if _had_default_role:\n" + indent_of(f, st) + "    " + _seg(f, st)).replace("        self.setup_parse(inputstring, document)", "        from docutils.parsers.rst import roles as _roles0\n\n        _had_default_role = '' in _roles0._roles\n        self.setup_parse(inputstring, document)", 1), "reset after render")
     return out
